@@ -16,6 +16,11 @@ def build(sc):
 
 class MyBase(BaseException): pass
 class UpstreamTimeout(TimeoutError): pass
+class EmptyAggregate(Exception):          # a legal exception that is FALSY (an aggregate of sub-errors with __len__, raised with none): `if exc:` is not `if exc is not None:`
+    def __len__(self): return len(self.args)
+class Unprintable(Exception):          # a legal exception whose str()/repr() raise (a broken __str__ in user code): formatting it eagerly inside an error path raises again
+    def __str__(self): raise RuntimeError("__str__ of the task's exception is broken")
+    __repr__ = __str__
 
 async def one(cfg):
     from taskiq import InMemoryBroker, TaskiqMiddleware, AckableMessage, TaskiqDepends, Context
@@ -72,6 +77,9 @@ async def one(cfg):
         if outcome == 'raise': ev.append(('task_end',)); raise ValueError("boom")
         if outcome == 'raise_timeout_subclass': ev.append(('task_end',)); raise UpstreamTimeout("upstream took too long")          # the task's OWN TimeoutError (no timeout label involved): it is the raised exception that must be stored
         if outcome == 'base': ev.append(('task_end',)); raise MyBase("base")
+        if outcome == 'raise_falsy': ev.append(('task_end',)); raise EmptyAggregate()
+        if outcome == 'raise_unprintable': ev.append(('task_end',)); raise Unprintable("x")
+        if outcome == 'sysexit_with_timeout': ev.append(('task_end',)); raise SystemExit(3)          # the message carries a (generous) timeout label: the function runs under wait_for
         if outcome == 'noresult': ev.append(('task_end',)); raise NoResultError()
         ev.append(('task_end',)); return ('ret', x)
     if cfg['async_target']:
@@ -88,6 +96,7 @@ async def one(cfg):
     partial_types = cfg['outcome'] == 'return' and cfg['async_target'] and not cfg.get('hook_fails')          # one label stamped without a type tag (what a client-side pre_send middleware does after the kicker computed labels_types)
     if partial_types: labels = {'lbl': '7', 'stamp': 'trace-1'}
     if outcome == 'timeout': labels['timeout'] = 0.05
+    if outcome == 'sysexit_with_timeout': labels['timeout'] = 30
     if outcome == 'timeout0': labels['timeout'] = 0
     msg = TaskiqMessage(task_id='id-1', task_name='t', labels=labels, labels_types={'timeout': 2} if outcome == 'timeout0' else ({'lbl': 2} if partial_types else None), args=[41], kwargs={})
     data = b.formatter.dumps(msg).message
@@ -126,10 +135,33 @@ async def late_registration(validate=True):
     async def t(x: int, ctx: Context = TaskiqDepends(), m: 'Optional[PostponedModel]' = None):          # the last annotation is a STRING (postponed evaluation, PEP 563 style)
         seen.append((x, ctx.message.task_id, True) if (m is None or isinstance(m, PostponedModel) or not validate) else (x, ctx.message.task_id, 'string annotation not resolved: m arrived as ' + type(m).__name__))
     t.__globals__.setdefault('Optional', __import__('typing').Optional)
+    # history: a message for the name arrives while it is still unknown (dropped), THEN the task is registered; every later delivery must execute
+    try: await r.callback(b.formatter.dumps(TaskiqMessage(task_id='id-early', task_name='late', labels={}, labels_types=None, args=['41'], kwargs={})).message)
+    except BaseException as e: seen.append((type(e).__name__, 'id-early', False))
     b.register_task(t, task_name='late')
     for i in range(2):
         try: await r.callback(b.formatter.dumps(TaskiqMessage(task_id=f'id-{i}', task_name='late', labels={}, labels_types=None, args=['41'], kwargs={'m': {'v': 1}})).message)
         except BaseException as e: seen.append((type(e).__name__, f'id-{i}', False))
+    return seen
+
+async def shadowed_shared_task():
+    """a task of the broker shadows a shared (globally registered) task of the same name with ANOTHER signature: the function that runs is the broker's own,
+    and its arguments must be converted by ITS annotations"""
+    from taskiq import InMemoryBroker
+    from taskiq.receiver import Receiver
+    from taskiq.message import TaskiqMessage
+    from taskiq.abc.broker import AsyncBroker
+    AsyncBroker.global_task_registry = {}
+    b = InMemoryBroker(); other = InMemoryBroker(); seen = []
+    async def shared(x: str, y: str = 'd'): seen.append(('shared', x, y))
+    async def own(x: int, y: float = 0.0): seen.append(('own', x, y))
+    foreign = other.register_task(shared, task_name='job-shared'); foreign.task_name = 'job'
+    type(b).global_task_registry['job'] = foreign
+    b.register_task(own, task_name='job')
+    r = Receiver(b, max_async_tasks=2, run_startup=False)
+    for i in range(2):
+        try: await r.callback(b.formatter.dumps(TaskiqMessage(task_id=f'id-{i}', task_name='job', labels={}, labels_types=None, args=['41'], kwargs={'y': '2.5'})).message)
+        except BaseException as e: seen.append((type(e).__name__, None, None))
     return seen
 
 async def same_receiver_twice():
@@ -214,6 +246,25 @@ async def isolation(shape):
     bad = {mid: v for mid, v in seen.items() if v != (mid, mid, mid)}
     return bad, seen
 
+async def labels_isolation():
+    """C06: messages with EQUAL label sets (the common case: every call of one task) must not share one labels dict - what one execution writes into
+    its message's labels (Context.requeue does, middlewares do) must stay invisible to a concurrent and to a later execution."""
+    from taskiq import InMemoryBroker, TaskiqDepends, Context
+    from taskiq.abc.broker import AsyncBroker
+    from taskiq.receiver import Receiver
+    from taskiq.message import TaskiqMessage
+    from taskiq.labels import LabelType
+    AsyncBroker.global_task_registry = {}
+    b = InMemoryBroker(); seen = {}
+    async def t(mid: str, ctx: Context = TaskiqDepends()):
+        if mid == 'A': ctx.message.labels['touched'] = 'by A'
+        await asyncio.sleep(0.03); seen[mid] = dict(ctx.message.labels)
+    b.register_task(t, task_name='t'); r = Receiver(b, run_startup=False, max_async_tasks=5)
+    def msg(i): return b.formatter.dumps(TaskiqMessage(task_id=i, task_name='t', labels={'tenant': 'x', 'n': '1'}, labels_types={'n': LabelType.INT.value}, args=[i], kwargs={})).message
+    async def later(): await asyncio.sleep(0.01); await r.callback(msg('B'))
+    await asyncio.gather(r.callback(msg('A')), later()); await r.callback(msg('C'))
+    return {mid: v for mid, v in seen.items() if mid != 'A' and v != {'tenant': 'x', 'n': 1}}, seen
+
 def monitor(cfg, ev, raised):
     """the statements' clauses evaluated on the native trace"""
     f = []; names = [e[0] for e in ev]
@@ -246,7 +297,7 @@ def monitor(cfg, ev, raised):
     elif saves:
         _, tid, is_err, rv, err, lbl = saves[0]
         if tid != 'id-1': f.append(f"C06/C07: stored under {tid!r}")
-        want_err = {'return': None, 'raise': 'ValueError', 'raise_timeout_subclass': 'UpstreamTimeout', 'base': 'MyBase', 'timeout': 'TimeoutError'}[oc]
+        want_err = {'return': None, 'raise': 'ValueError', 'raise_timeout_subclass': 'UpstreamTimeout', 'base': 'MyBase', 'timeout': 'TimeoutError', 'raise_falsy': 'EmptyAggregate', 'raise_unprintable': 'Unprintable', 'sysexit_with_timeout': 'SystemExit'}[oc]
         if is_err != (want_err is not None) or err != want_err: f.append(f"C07: stored is_err={is_err} error={err} for outcome {oc}")
         if oc == 'return' and rv != repr(('ret', 41)): f.append(f"C07: stored return value {rv}")
         if lbl.get('lbl') != 7: f.append(f"C07: stored labels {lbl}")
@@ -313,13 +364,16 @@ def run(sc):
     for ack_time in acks:
         for ackable in ackables:
             for ack_async in ([sc['ack_async']] if isinstance(sc.get('ack_async'), bool) else [False, True, 'awaitable-object']):
-                for outcome in ('return', 'raise', 'raise_timeout_subclass', 'base', 'noresult', 'timeout', 'timeout0'):
+                for outcome in ('return', 'raise', 'raise_timeout_subclass', 'raise_falsy', 'raise_unprintable', 'sysexit_with_timeout', 'base', 'noresult', 'timeout', 'timeout0'):
                     for backend_fails in (False, True):
                         for async_target in (True, False):
                             if outcome in ('timeout', 'timeout0') and not async_target: continue
                             for propagate in (True, False):
                                 cfg = dict(ack_time=ack_time, ackable=ackable, ack_async=ack_async, outcome=outcome, backend_fails=backend_fails, async_target=async_target, propagate=propagate)
-                                ev, raised = asyncio.run(one(cfg)); n += 1
+                                n += 1
+                                try: ev, raised = asyncio.run(one(cfg))
+                                except BaseException as ex:          # nothing may escape the event loop: the worker's loop.run_until_complete(listen()) would die with it
+                                    fails.append({'key': json.dumps(cfg, sort_keys=True), 'config': cfg, 'failed_clauses': [f"C07: {type(ex).__name__} raised by the task function escaped the event loop itself (outcome {outcome}): no result was stored, the worker's loop is torn down"] + ([f"C02: the message was never acknowledged ({type(ex).__name__} escaped the event loop)"] if ackable else []), 'trace': []}); continue
                                 fl = monitor(cfg, ev, raised)
                                 if fl: fails.append({'key': json.dumps(cfg, sort_keys=True), 'config': cfg, 'failed_clauses': fl, 'trace': [list(map(str, e)) for e in ev]})
     for ack_time in acks:          # fault runs: one middleware hook raises
@@ -333,13 +387,20 @@ def run(sc):
                     if fl: fails.append({'key': json.dumps(cfg, sort_keys=True), 'config': cfg, 'failed_clauses': fl, 'trace': [list(map(str, e)) for e in ev]})
     # a task registered AFTER the receiver was built (dynamic registration, InMemoryBroker): it is prepared lazily on its first delivery, which must behave like any other
     got = asyncio.run(late_registration()); n += 1
-    if got != [(41, 'id-0', True), (41, 'id-1', True)]:
+    if len(got) < 2:
+        fails.append({'key': 'late-registration-dropped', 'config': {'history': ['message for unknown name "late" (dropped)', 'register_task(t, task_name="late")', 'message id-0', 'message id-1']},
+                      'failed_clauses': [f"C01: after the task was registered, 2 well-formed messages naming it were delivered but it ran {len(got)} time(s) (executions: {got}) - a known task was treated as unknown"], 'trace': [str(got)]})
+    elif got != [(41, 'id-0', True), (41, 'id-1', True)]:
         fails.append({'key': 'late-registration', 'config': {'registered': 'after Receiver(...)', 'sent_args': ['41'], 'annotation': 'int'},
                       'failed_clauses': [f"C08: a task `def t(x: int, ctx: Context)` registered after the receiver was built was sent the argument '41' twice; (received x, Context.task_id, dependency resolved) per delivery = {got}, expected the converted 41 and its own Context both times"], 'trace': [str(got)]})
     got = asyncio.run(late_registration(validate=False)); n += 1
     if got != [('41', 'id-0', True), ('41', 'id-1', True)]:
         fails.append({'key': 'validate_params=False', 'config': {'validate_params': False, 'sent_args': ['41'], 'annotation': 'int'},
                       'failed_clauses': [f"C08: with parameter parsing disabled (Receiver(validate_params=False)) the argument '41' must arrive as sent; per delivery the task received {got}"], 'trace': [str(got)]})
+    got = asyncio.run(shadowed_shared_task()); n += 1
+    if got != [('own', 41, 2.5), ('own', 41, 2.5)]:
+        fails.append({'key': 'shadowed-shared-task', 'config': {'own task': 'def own(x: int, y: float)', 'shared task of the same name': 'def shared(x: str, y: str)', 'sent': {'args': ['41'], 'kwargs': {'y': '2.5'}}},
+                      'failed_clauses': [f"C08: the broker's own task `own(x: int, y: float)` shadows a shared task of the same name with other annotations; sent ('41', y='2.5') twice, (function, x, y) executed = {got}, expected the own function with 41 and 2.5"], 'trace': [str(got)]})
     got = asyncio.run(same_receiver_twice()); n += 1
     want_ = [('pre_execute', 'id-0'), ('task', 'id-0', 'explicit'), ('post_execute', 'id-0'), ('post_save', 'id-0'), ('pre_execute', 'id-1'), ('task', 'id-1', 'explicit'), ('post_execute', 'id-1'), ('post_save', 'id-1')]
     if got != want_:
@@ -355,6 +416,9 @@ def run(sc):
         bad, seen = asyncio.run(isolation(shape)); n += 1
         if bad or len(seen) != 2: fails.append({'key': 'isolation:' + shape, 'config': {'overlapping_messages': ['A', 'B'], 'dependency': shape},
                                 'failed_clauses': [f"C06: execution of message {mid} observed (dependency value, Context.task_id, label) = {v}" for mid, v in bad.items()] or ["C06: an execution did not complete"], 'trace': [str(seen)]})
+    bad, seen = asyncio.run(labels_isolation()); n += 1
+    if bad or len(seen) != 3: fails.append({'key': 'isolation:equal-labels', 'config': {'messages': ['A (writes a label into its own message)', 'B (overlapping)', 'C (afterwards)'], 'labels': {'tenant': 'x', 'n': 1}},
+                            'failed_clauses': [f"C06: message A wrote labels['touched'] into ITS message; the execution of message {mid} (same label set, own message) saw labels {v}" for mid, v in bad.items()] or ["C06: an execution did not complete"], 'trace': [str(seen)]})
     return {'reproduced': bool(fails), 'runs': n, 'failures': fails[:400], 'n_failures': len(fails)}
 
 if __name__ == '__main__':
